@@ -330,6 +330,32 @@ pub fn pin_digests() -> Result<(), String> {
     std::fs::write(golden_dir().join("ccsds").join("DIGESTS"), out).map_err(|e| e.to_string())
 }
 
+/// many threads building AR4JA codes of different M at the same time and again and again, each
+/// thread in its own order: every matrix built must have the pinned digest (process-wide caches,
+/// if any, must not mix codes up)
+fn concurrent_cases(t: Tier) -> Vec<CodeCase> {
+    (0..t.pick(16u64, 64)).map(|w| CodeCase { code: "concurrent".into(), rank: false, encoder_messages: 0, seed: w }).collect()
+}
+
+fn check_concurrent(case: &CodeCase, p: &mut Probe) -> Check {
+    let digests = read_digests(&golden_dir().join("ccsds").join("DIGESTS"));
+    // the six codes with k <= 4096 (two of them share M = 512)
+    let small: Vec<_> = CODES.iter().filter(|c| c.2 <= 4096).collect();
+    let mut s = splitmix(case.seed ^ 0xc0de);
+    for round in 0..40 {
+        s = splitmix(s);
+        let c = small[(s % small.len() as u64) as usize];
+        let (name, rate, k, m) = (c.0, c.1, c.2, c.3);
+        let h = guarded(|| library_code(rate, k).h()).map_err(|e| Fail::new("panic", format!("{name}: h() panicked while other threads were building other codes (round {round}): {e}")))?;
+        let got = columns_digest(3 * m, &sorted_columns(&h));
+        let want = digests.get(name).ok_or_else(|| Fail::new("golden-missing", format!("{name}: no pinned digest")))?;
+        ensure!(&got == want, "concurrent-build", "{name}: the matrix built in round {round}, while other threads were building other codes, differs from the pinned reference (digest {got})");
+        p.inner += 1;
+    }
+    p.nontrivial();
+    Ok(())
+}
+
 pub fn property() -> Property {
     Property {
         id: "C07",
@@ -339,6 +365,13 @@ pub fn property() -> Property {
             cases,
             check: check_code,
             exhaustive: true,
+        }),
+        Box::new(EnumSub {
+            name: "concurrent-builds",
+            rule: "16 (thorough 64) workers, each building 40 times one of the six AR4JA codes with k <= 4096 in its own pseudo-random order, all at the same time: every matrix built must have the pinned digest, no build may panic; inner = matrices built",
+            cases: concurrent_cases,
+            check: check_concurrent,
+            exhaustive: false,
         })],
         assumptions: vec![
             "M values, block layouts and protograph degrees are the harness's own transcription of CCSDS 131.0-B; theta/phi/circulant table entries are pinned from the tree at pin time (regression oracle for the individual entries)".into(),
